@@ -27,6 +27,8 @@
 -/
 import RtoscModel.Proofs.ParamLemmas
 import RtoscModel.Proofs.ParamDelivery
+import RtoscModel.Proofs.ParamDeliveryArr
+import RtoscModel.Proofs.ParamWalkBridge
 namespace Rtosc.Param
 open Rtosc
 
@@ -360,12 +362,19 @@ theorem array_applies_element_callback {α : Type} (elem : α → List Arg → E
   | error e => rfl
   | ok r => obtain ⟨x', ev⟩ := r; rfl
 
-/-! ## "at the port's full address": delivery of a message to a scalar port
+/-! ## "at the port's full address": delivery of a message to a port
 
-  Partial: stated for the restricted model of `rtosc_match` in Param/Port.lean and for the
-  scalar port macros (`name::tags`).  Array ports (`name#N::tags`) and the walk of
-  `Ports::dispatch` through `rRecur` that builds the object's address are not covered by a
-  theorem (C04/C05 own those claims); the correspondence run compares both on every message. -/
+  Three layers.
+  * One port, scalar (`name::tags`) or array (`name#N::tags`), over the restricted model of
+    `rtosc_match` in Param/Port.lean (what the `param` engine runs): `dispatch_scalar_at_address`,
+    `dispatch_array_at_address`, `dispatch_array_only`, `array_callback_runs_element`.  The
+    address of the object the port belongs to is a parameter `pfx` there.
+  * The walk of `Ports::dispatch` through `rRecur` sub-trees of any depth that builds that
+    address — the model of C04 (Ports/Dispatch.lean: linear and hashed lookup, `SNIP`, the
+    location buffer): `delivery_through_recur`.  It shows that `pfx` is the address in front
+    of the port's own part of the path, that `loc` is the full address, and that C04's
+    matcher (C05) and the restricted one agree on macro names.
+  * That C04's model is what the library does is C04's correspondence, not C14's. -/
 
 /-- the type specifications the scalar port macros write behind the name, each with the
     type strings of the messages the property speaks about (query, one value) -/
@@ -405,6 +414,168 @@ example : PlainName [112, 102, 48] := by
   intro c hc
   simp only [List.mem_cons, List.not_mem_nil, or_false] at hc
   rcases hc with rfl | rfl | rfl <;> decide
+
+/-! ### array ports -/
+
+/-- **delivery, array ports** (rArrayF / rArrayI / rArrayT / rArrayOption: `name#N::tags`): a
+    message at the address `name<k>` (any spelling of `k` in decimal digits, leading zeros
+    included) is handed to the callback iff `k < N` (and its type string is accepted), with
+    `loc` = the object's address followed by `name<k>`; an index `k ≥ N` matches nothing. -/
+theorem dispatch_array_at_address (p : Port) (name nd spec pfx ds : Bytes) (fld : Field) (args : List Arg)
+    (hp : p.pattern = arrPattern name nd spec) (hn : PlainName name)
+    (hnd : AllDigits nd) (hnne : nd ≠ []) (hnv : digitsVal nd ≤ 2147483647)
+    (hds : AllDigits ds) (hdne : ds ≠ []) (hdv : digitsVal ds ≤ 2147483647) :
+    (digitsVal nd ≤ digitsVal ds → dispatch p pfx (name ++ ds) fld args = .ok none) ∧
+    (digitsVal ds < digitsVal nd →
+      matchArgs ((58 :: spec).length + 2) (58 :: spec) (args.map Arg.tag) = true →
+      dispatch p pfx (name ++ ds) fld args =
+        match callback p (pfx ++ (name ++ ds)) (name ++ ds) fld args with
+        | .error e => .error e
+        | .ok r => .ok (some r)) := by
+  have hm := portMatches_array name nd spec ds (args.map Arg.tag) hn hnd hnne hnv hds hdne hdv
+  constructor
+  · intro h
+    have : ¬ (digitsVal ds < digitsVal nd) := by omega
+    simp [dispatch, hp, hm, this]
+  · intro h ha
+    simp only [dispatch, hp, hm, h, decide_true, ha, Bool.and_self]
+    cases callback p (pfx ++ (name ++ ds)) (name ++ ds) fld args <;> rfl
+
+/-- **only such addresses**: whatever the path below the object is, if the callback of an
+    array port runs then the path is the port's name followed by a non-empty run of digits
+    whose value is below the declared length. -/
+theorem dispatch_array_only (p : Port) (name nd spec pfx path : Bytes) (fld : Field) (args : List Arg)
+    (r : Field × List Event)
+    (hp : p.pattern = arrPattern name nd spec) (hn : PlainName name)
+    (hnd : AllDigits nd) (hnne : nd ≠ []) (hnv : digitsVal nd ≤ 2147483647)
+    (h : dispatch p pfx path fld args = .ok (some r)) :
+    ∃ ds, path = name ++ ds ∧ ds ≠ [] ∧ AllDigits ds ∧ digitsVal ds < digitsVal nd := by
+  simp only [dispatch, hp] at h
+  split at h
+  · cases h
+  · cases h
+  · rename_i hm
+    exact portMatches_array_only name nd spec path _ hn hnd hnne hnv hm
+
+/-- **the callback of an array port runs the element callback on element `k`** of the address
+    `name<k>` — all five array macros; with `dispatch_array_at_address` (which gives `k < N`, and
+    `N` is the length of the field) and the scalar theorems above this is "a set message at
+    `name<k>` reaches element `k`": the new array is the old one with element `k` replaced by what
+    the element callback stores, the messages are the element callback's. -/
+theorem array_callback_runs_element (p : Port) (name nd spec loc ds : Bytes) (pm : Meta.Ptr) (args : List Arg)
+    (hp : p.pattern = arrPattern name nd spec) (hn : PlainName name)
+    (hpm : Meta.container p.block = some pm)
+    (hds : AllDigits ds) (hdv : digitsVal ds ≤ 2147483647) :
+    (p.kind = .arrayF → ∀ xs x, xs[digitsVal ds]? = some x →
+      callback p loc (name ++ ds) (.flts xs) args =
+        (rArrayFElem pm loc x args).map (fun r => (.flts (xs.set (digitsVal ds) r.1), r.2))) ∧
+    (p.kind = .arrayI → ∀ xs x, xs[digitsVal ds]? = some x →
+      callback p loc (name ++ ds) (.ints xs) args =
+        (rArrayIElem p.ty pm loc x args).map (fun r => (.ints (xs.set (digitsVal ds) r.1), r.2))) ∧
+    (p.kind = .arrayOption → ∀ xs x, xs[digitsVal ds]? = some x →
+      callback p loc (name ++ ds) (.ints xs) args =
+        (rArrayOptionElem p.ty pm loc x args).map (fun r => (.ints (xs.set (digitsVal ds) r.1), r.2))) ∧
+    (p.kind = .arrayT → ∀ xs x, xs[digitsVal ds]? = some x →
+      callback p loc (name ++ ds) (.bools xs) args =
+        (rArrayTElem loc x args).map (fun r => (.bools (xs.set (digitsVal ds) r.1), r.2))) ∧
+    (p.kind = .arrayTMember → ∀ xs x, xs[digitsVal ds]? = some x →
+      callback p loc (name ++ ds) (.bools xs) args =
+        (rArrayTMemberElem loc x args).map (fun r => (.bools (xs.set (digitsVal ds) r.1), r.2))) := by
+  have hname : ∀ c ∈ name, c ≠ 35 := fun c hc => (hn c hc).2.2.2.2
+  have hidx : arrayIndex p.pattern (name ++ ds) = .ok (digitsVal ds) := by
+    rw [hp, arrPattern]; exact array_index_of_address name _ ds hname hds hdv
+  refine ⟨?_, ?_, ?_, ?_, ?_⟩ <;> intro hk xs x hx
+  · simp only [callback, hpm, hk, rArrayFCb, array_applies_element_callback _ _ _ xs args _ x hidx hx]
+    cases rArrayFElem pm loc x args <;> rfl
+  · simp only [callback, hpm, hk, rArrayICb, array_applies_element_callback _ _ _ xs args _ x hidx hx]
+    cases rArrayIElem p.ty pm loc x args <;> rfl
+  · simp only [callback, hpm, hk, rArrayOptionCb, array_applies_element_callback _ _ _ xs args _ x hidx hx]
+    cases rArrayOptionElem p.ty pm loc x args <;> rfl
+  · simp only [callback, hpm, hk, rArrayTCb, array_applies_element_callback _ _ _ xs args _ x hidx hx]
+    cases rArrayTElem loc x args <;> rfl
+  · simp only [callback, hpm, hk, rArrayTCbMember, array_applies_element_callback _ _ _ xs args _ x hidx hx]
+    cases rArrayTMemberElem loc x args <;> rfl
+
+
+/-! ### the address walk -/
+
+/-- the names the parameter macros generate, as structured names of C05/C04 -/
+inductive MacroName : Match.Pat → Prop
+  | scalar (name : Bytes) (ts : List Bytes) : PlainName name → MacroName (scalarPat name ts)
+  | array (name nd : Bytes) (ts : List Bytes) : PlainName name → MacroName (arrayPat name nd ts)
+
+theorem MacroName.nosub {p : Match.Pat} (h : MacroName p) : p.sub = false := by
+  cases h <;> rfl
+
+/-- on a macro name of a well-formed tree, what C05's matcher accepts the restricted matcher accepts -/
+theorem MacroName.bridge {p : Match.Pat} (h : MacroName p) (hwf : Ports.nameWf p = true) {path tags t' : Bytes}
+    (hm : Ports.matchB p path tags = some t') : portMatches p.render path tags = .ok true := by
+  cases h with
+  | scalar name ts hn =>
+    obtain ⟨h1, h2⟩ := scalarPat_facts hwf
+    rw [(matchB_scalar name ts path tags hn h1 h2).1, hm]; rfl
+  | array name nd ts hn =>
+    obtain ⟨⟨h1, h2⟩, h3, h4, h5⟩ := arrayPat_facts hwf
+    exact (matchB_array name nd ts path tags t' hn h3 h4 h5 h1 h2 hm).1
+
+/-- **delivery through the rRecur address walk** (clause "at the port's full address"): a
+    macro-generated port `q` (scalar or array form) anywhere in a well-formed port tree — below
+    sub-trees of any depth, in tables that are searched linearly or by hash (any lookup
+    tables satisfying C04's `MkOK`, in particular the real ones) —, any message in C04's scope,
+    dispatched with a location buffer.  Then
+    * the callback of `q` is invoked iff the address matches at every level and the type string
+      is accepted (`AnswersRoot`, the specification of C04), and no callback is invoked twice;
+    * when it is invoked it is handed: `msg` = `path`, the part of the address its own name
+      matches; `loc` = the *full address* `pfx ++ path` of the message (after a base dispatch:
+      `"/"` followed by the address without its leading slash); the object handed down by its
+      parents and its own port pointer;
+    * the restricted matcher of Param/Port.lean accepts `path`, and the one-port model
+      `dispatch port pfx path` that the correspondence run executes is exactly the port's
+      callback run with that `loc` and `msg`: every callback theorem of this file, instantiated
+      with `loc` = the full address, describes what happens. -/
+theorem delivery_through_recur {mk : List Bytes → Option Ports.Hash.Matcher} (hmk : Ports.MkOK mk)
+    {P : Ports.PPorts} {addr tags rest : Bytes} (h : Ports.InScope P addr tags rest) (k : Nat) (base : Bool)
+    (d : Ports.RtData) (L0 : Bytes) (hd : d.loc = some L0) (hsz : d.locSize ≠ 0) (hobj : d.obj = [])
+    (q : List Nat) (pat : Match.Pat) (hq : P.tab.find 0 q = some (pat, true)) (hmac : MacroName pat)
+    (port : Port) (hport : port.pattern = pat.render) :
+    ∃ log d', Ports.dispatch mk P.render (Ports.msgBuf addr tags k rest) d base = some (log, d') ∧
+      ((∃ c ∈ log, c.who = .port q) ↔ Ports.AnswersRoot P (Ports.rootAddr base addr) tags (.port q)) ∧
+      (log.map (·.who)).Nodup ∧
+      ∀ c ∈ log, c.who = .port q →
+        ∃ pfx path, Ports.rootLoc base L0 ++ Ports.rootAddr base addr = pfx ++ path ∧
+          c.loc = some (pfx ++ path) ∧ c.m = path ++ 0 :: Ports.msgTail k tags rest ∧
+          c.obj = q.dropLast ∧ c.dport = some q ∧
+          portMatches port.pattern path tags = .ok true ∧
+          ∀ fld args, args.map Arg.tag = tags →
+            dispatch port pfx path fld args =
+              match callback port (Ports.rootLoc base L0 ++ Ports.rootAddr base addr) path fld args with
+              | .error e => .error e
+              | .ok r => .ok (some r) := by
+  obtain ⟨log, d', hdisp, hhand⟩ := Ports.dispatch_handed hmk h k base d L0 hd hsz
+  obtain ⟨log1, d1, hdisp1, hiff⟩ := Ports.dispatch_loc_iff hmk h k base d L0 hd hsz
+  obtain ⟨log2, d2, hdisp2, hptr⟩ := Ports.port_pointer_own hmk h k base d L0 hd hsz hobj
+  have hr : Ports.TwoRuns d { d with loc := none } L0 := ⟨hd, hsz, rfl, rfl, rfl⟩
+  obtain ⟨log3, d3, _, _, hdisp3, _, hnd, _⟩ := Ports.dispatch_unique hmk h k base hr
+  rw [hdisp] at hdisp1 hdisp2 hdisp3
+  cases hdisp1; cases hdisp2; cases hdisp3
+  refine ⟨log, d', hdisp, ?_, hnd, ?_⟩
+  · rw [← hiff]
+    simp only [List.mem_map]
+  · intro c hc hw
+    obtain ⟨p, pfx, path, t', hfind, hfull, hm, hloc, hmsg⟩ := hhand c hc q hw
+    rw [hq] at hfind
+    simp only [Option.some.injEq, Prod.mk.injEq] at hfind
+    obtain ⟨rfl, _⟩ := hfind
+    obtain ⟨rfl, hcons⟩ := Ports.matchB_nosub hmac.nosub hm
+    rw [hcons] at hloc
+    have hwf := Ports.PTable.find_wf P.tab h.wf 0 q pat true hq
+    have hpm : portMatches port.pattern path tags = .ok true := by rw [hport]; exact hmac.bridge hwf hm
+    obtain ⟨hp1, hp2⟩ := (hptr c hc).1 q hw
+    refine ⟨pfx, path, hfull, hloc, hmsg, hp2, hp1, hpm, ?_⟩
+    intro fld args hargs
+    simp only [dispatch, hargs, hpm, hfull]
+    cases callback port (pfx ++ path) path fld args <;> rfl
+
 
 /-! ## the comparison structures satisfy the order hypotheses -/
 
@@ -543,5 +714,66 @@ example : (rParamICb .i32 (exPm exBlockK) exLoc 5 [.i 2]).toOption =
 example : boundTruncatedOutward true ⟨false, [50], [53]⟩ = true ∧
     boundTruncatedOutward false ⟨false, [55], [57]⟩ = false ∧
     boundTruncatedOutward true ⟨true, [50], [53]⟩ = false := by decide
+
+/-! ### non-vacuity of the delivery theorems -/
+
+-- array port "af#4::f": name "af", N = "4", specification ":f"
+example : arrPattern [97, 102] [52] [58, 102] = [97, 102, 35, 52, 58, 58, 102] := by decide
+example : PlainName [97, 102] := by
+  intro c hc
+  simp only [List.mem_cons, List.not_mem_nil, or_false] at hc
+  rcases hc with rfl | rfl <;> decide
+-- "af3" is delivered, "af4" and "af04" are not, "af03" is element 3
+example : (portMatches [97, 102, 35, 52, 58, 58, 102] [97, 102, 51] [102]).toOption = some true ∧
+    (portMatches [97, 102, 35, 52, 58, 58, 102] [97, 102, 52] [102]).toOption = some false ∧
+    (portMatches [97, 102, 35, 52, 58, 58, 102] [97, 102, 48, 52] [102]).toOption = some false ∧
+    (portMatches [97, 102, 35, 52, 58, 58, 102] [97, 102, 48, 51] [102]).toOption = some true ∧
+    (portMatches [97, 102, 35, 52, 58, 58, 102] [97, 102] [102]).toOption = some false := by decide
+/-- the port `rArrayF(af, 4, rLinear(-1.5, 2.25), "d")` -/
+def exPortAF : Port := { kind := .arrayF, ty := .i32, len := 4, pattern := [97, 102, 35, 52, 58, 58, 102], block := exBlockF }
+-- "/sub/deep1/" ++ "af3", 7.0: element 3 (and only it) becomes 2.25, reported at the full address
+example : (dispatch exPortAF [47, 115, 117, 98, 47, 100, 101, 101, 112, 49, 47] [97, 102, 51] (.flts [0, 0, 0, 0x3fa00000])
+      [.f 0x40e00000]).toOption =
+    some (some (.flts [0, 0, 0, 0x40100000],
+      [reply undoAddr [.s [47, 115, 117, 98, 47, 100, 101, 101, 112, 49, 47, 97, 102, 51], .f 0x3fa00000, .f 0x40100000],
+       broadcast [47, 115, 117, 98, 47, 100, 101, 101, 112, 49, 47, 97, 102, 51] [.f 0x40100000]])) := by decide +kernel
+
+/-- `sub/` → { `deep#2/` → { `pf::f`, `af#4::f` } }, `v#2::i` -/
+def exWalkTree : Ports.PPorts :=
+  { dflt := false,
+    tab :=
+      .node { segs := [.lit [115, 117, 98]], sub := true, types := none }
+        (.node { segs := [.lit [100, 101, 101, 112], .enum [50]], sub := true, types := none }
+          (.leaf (scalarPat [112, 102] [[], [102]]) <|
+           .leaf (arrayPat [97, 102] [52] [[], [102]]) .nil) false .nil) false <|
+      .leaf (arrayPat [118] [50] [[], [105]]) .nil }
+
+/-- "/sub/deep1/af3" -/
+def exWalkAddr : Bytes := [47, 115, 117, 98, 47, 100, 101, 101, 112, 49, 47, 97, 102, 51]
+
+example : exWalkTree.tab.WF := by decide
+example : exWalkTree.tab.find 0 [0, 0, 1] = some (arrayPat [97, 102] [52] [[], [102]], true) := by decide
+example : MacroName (arrayPat [97, 102] [52] [[], [102]]) :=
+  .array _ _ _ (by
+    intro c hc
+    simp only [List.mem_cons, List.not_mem_nil, or_false] at hc
+    rcases hc with rfl | rfl <;> decide)
+example : exPortAF.pattern = (arrayPat [97, 102] [52] [[], [102]]).render := by decide
+example : Ports.InScope exWalkTree exWalkAddr [102] [0, 0, 0, 0] :=
+  { wf := by decide
+    addr_nul := by unfold Match.NulFree exWalkAddr; decide
+    addr_idx := Match.idxBounded_of_check (by decide)
+    tags_nul := by unfold Match.NulFree; decide }
+def exWalkData : Ports.RtData := { loc := some [], locSize := 64, locHigh := 0, obj := [], nmatches := 0, port := none }
+-- the real lookup tables (every table of this tree has a `#` port and is searched linearly; hashed tables: C04's
+-- examples — the theorem holds for both): three callbacks (`sub/`, `deep#2/`, `af#4::f`); the last one sees the full address in `loc`,
+-- "af3" as its message, the object of its table and its own port pointer
+example :
+    (Ports.dispatchReal exWalkTree.render (Match.mkMsg exWalkAddr [102] [0, 0, 0, 0]) exWalkData true).map
+      (fun r => r.1.map (fun c => (c.who, c.loc, c.obj))) =
+    some [(.port [0], some [47, 115, 117, 98, 47], []),
+          (.port [0, 0], some [47, 115, 117, 98, 47, 100, 101, 101, 112, 49, 47], [0]),
+          (.port [0, 0, 1], some exWalkAddr, [0, 0])] := by decide +kernel
+
 
 end Rtosc.Param
